@@ -19,7 +19,8 @@ EXPLANATION = (
     "handle; workers leave their loop only when pull() returns None; (T4) the lock-order graph over all bodies "
     "reachable from producer entry points and the worker is acyclic and blocking operations are not executed "
     "under a lock the other side needs; (T5) every Condvar wait loop's continuation predicate can be falsified "
-    "by the opposite operation alone for every parameter value. It does not explore interleavings.  (T7) what a polling loop of the producer observes is lowered by pulling itself or by a completion call made on every worker path from a pulled item to the next pull, tokens included.")
+    "by the opposite operation alone for every parameter value. It does not explore interleavings.  (T7) what a polling loop of the producer observes is lowered by pulling itself or by a completion call made on every worker path from a pulled item to the next pull, tokens included; "
+    "(T8) the queue's byte counter returns to what is queued (C06-Q2 shared).")
 UNDECIDED = ("liveness under all schedules as such, fairness, the polling loops of drain/sync_and_flush, "
              "progress after a worker returns an error")
 
